@@ -155,3 +155,33 @@ Section ClosedForms.
     rewrite xdiv_some by exact Hn. f_equal. rewrite sse_expand, tr_nP. field. exact Hn.
   Qed.
 End ClosedForms.
+
+(* ---- a perfect line over the ranks 1..n ------------------------------------------------------ *)
+Definition line (c d : R) (n : nat) : list R := map (fun t => c + d * INR t) (seq 1 n).
+Lemma line_length c d n : length (line c d n) = n.
+Proof. unfold line. rewrite map_length, seq_length. reflexivity. Qed.
+
+Lemma perfect_line_fit c d n :
+  (2 <= n)%nat ->
+  let P := trend_pairs (line c d n) in
+  detB P <> 0 /\ ols_alpha P = c /\ ols_beta P = d /\ sse (ols_alpha P) (ols_beta P) P = 0.
+Proof.
+  intros Hn P.
+  assert (HD : detB P <> 0).
+  { intros E. apply trend_det_zero_iff in E. rewrite line_length in E. lia. }
+  assert (HL : Forall (fun p => fst p = c + d * snd p) P) by apply trend_line_from.
+  destruct (perfect_fit c d P HD HL) as (Ha & Hb & Hs & _).
+  split; [exact HD|]. split; [exact Ha|]. split; [exact Hb|exact Hs].
+Qed.
+
+(* any statistic f(alpha, beta) of the trend fit, on a window whose non-null values are a perfect line *)
+Lemma perfect_line_stat c d n mp (f : R -> R -> R) :
+  (2 <= n)%nat -> (mp <= n)%nat ->
+  (if (mp <=? length (line c d n))%nat then ols_x (trend_pairs (line c d n)) f else None) = Some (f c d).
+Proof.
+  intros Hn Hmp. rewrite line_length.
+  replace (mp <=? n)%nat with true by (symmetry; apply Nat.leb_le; exact Hmp).
+  destruct (perfect_line_fit c d n Hn) as (HD & Ha & Hb & _). unfold ols_x.
+  destruct (Req_EM_T (detB (trend_pairs (line c d n))) 0) as [E|_]; [contradiction|].
+  rewrite Ha, Hb. reflexivity.
+Qed.
